@@ -155,6 +155,7 @@ type harness struct {
 	needles           [][]byte
 	needleDesc        []string
 	needleIdx         map[uint64][]int // first 8 bytes of a needle -> needle numbers
+	needle2           [1 << 16]bool    // first 2 bytes of a needle (filter in front of needleIdx)
 	leaks             []string
 	scannedDel        int
 	hookErr           string
@@ -328,6 +329,7 @@ func (h *harness) addNeedles(p *plain) {
 	add := func(b []byte, what string) {
 		k := binary.LittleEndian.Uint64(b) // every needle has >= 12 bytes
 		h.needleIdx[k] = append(h.needleIdx[k], len(h.needles))
+		h.needle2[binary.LittleEndian.Uint16(b)] = true
 		h.needles = append(h.needles, b)
 		h.needleDesc = append(h.needleDesc, what)
 	}
@@ -354,6 +356,9 @@ func (h *harness) scan(store string, br blob.Ref, data []byte) {
 	defer h.mu.Unlock()
 	find := func(hay []byte) int {
 		for i := 0; i+8 <= len(hay); i++ {
+			if !h.needle2[binary.LittleEndian.Uint16(hay[i:])] {
+				continue // no needle starts with these two bytes
+			}
 			for _, n := range h.needleIdx[binary.LittleEndian.Uint64(hay[i:])] {
 				if bytes.HasPrefix(hay[i:], h.needles[n]) {
 					return n
